@@ -246,6 +246,22 @@ def run_shard(args):
         bad = {t: o for t, o in r2.outcomes.items() if o != "passed"}
         if bad or r2.exit != 0:
             out["violations"].append({"kind": "reached-snapshot-not-repaired(real session)", "detail": {"ending": ename, "first_exit": r1.exit, "tests_run_in_first_session": ran, "failing_when_disabled": bad, "stdout_tail": r2.stdout[-800:], "file_after_first_session": r1.after.get("test_a.py", b"").decode()[:2500]}, "witness": wit, "finding": None})
+    # ---- a session whose only pending change differs from the file in white space at a line end
+    if args.shard in (6, 7) or tier == "thorough":
+        wsrc = 'from inline_snapshot import snapshot\n\n\ndef test_ws_only_difference():\n    assert "col1\\t\\ncol2\\n" == snapshot("""\\\ncol1\ncol2\n""")\n'
+        for fargs, stdin in ((["--inline-snapshot=fix"], None), (["--inline-snapshot=review"], b"y\ny\ny\ny\n")):
+            proj = session.Project({"test_ws.py": wsrc}, with_vp=False)
+            try:
+                r1 = session.run_session(proj, fargs, env={"FORCE_COLOR": "true"} if stdin else None, stdin=stdin)
+                r2 = session.run_session(proj, ["--inline-snapshot=disable"])
+            finally:
+                proj.close()
+            C["real_sessions"] = C.get("real_sessions", 0) + 1
+            C["whitespace_only_change_sessions"] = C.get("whitespace_only_change_sessions", 0) + 1
+            out["evaluations"] += 1
+            out["signatures"].add("real-session/whitespace-only-change/" + fargs[0])
+            if r2.exit != 0:
+                out["violations"].append({"kind": "reached-snapshot-not-repaired(real session)", "detail": {"ending": "whitespace-only change", "args": fargs, "first_exit": r1.exit, "file_after_first_session": r1.after.get("test_ws.py", b"").decode(), "stdout_tail": r2.stdout[-500:]}, "witness": {"files": {"test_ws.py": wsrc}, "args": fargs}, "finding": None})
     out["signatures"] = sorted(out["signatures"])
     return out
 
